@@ -31,9 +31,16 @@ MANIFEST = dict(
          "substitution returned by ConstraintSolver::solve (unification + Gaussian elimination over exponents) "
          "satisfies every Equal / IsDType / EqualScalar constraint under every well-sorted valuation that is an "
          "instance of it; C02_whole_input / C02_whole_input_accepted — a statement that fails to check after a checked "
-         "prefix rejects the whole input, leaves the pre-input checker state and never enters the run stage. NOT "
-         "proved: C02_accept_sound (constraint generation sound w.r.t. the declarative dimensional analysis of "
-         "Dim/Sem.v), C02_reject_complete, solver termination/mgu. Those clauses rest on the ties: accept/reject, the "
+         "prefix rejects the whole input, leaves the pre-input checker state and never enters the run stage; "
+         "C02_accept_sound / C02_accept_sound_annotated — for the arithmetic core of the elaborator (literals incl. the "
+         "polymorphic 0, identifiers, units, unary and binary operators with constant exponents, comparisons, if, calls "
+         "of functions with monomorphic signatures; no list literals) over monomorphic environments: acceptance plus a "
+         "solver solution imply, in every well-sorted instance of the solution, the declarative dimensional analysis "
+         "has_ty of Dim/Sem.v at exactly the meaning of the inferred (and of the reported) type, and for annotated "
+         "definitions that the annotation denotes the derived dimension; C02_canonical_form — every factor list produced by "
+         "try_canonicalize is strictly sorted with non-zero exponents and canonicalisation is idempotent. NOT proved: accept-soundness for polymorphic "
+         "environment entries, function definitions/generalisation and lists; C02_reject_complete; solver "
+         "termination/mgu; idempotence of the returned substitution. Those clauses rest on the ties: accept/reject, the "
          "TypeCheckError variant and the raw type scheme of every statement are compared between model and "
          "implementation on generated multi-statement programs, mis-dimensioned variants and two-input sessions; an "
          "independent dimensional analysis in Python gives the expected verdict and dimensions on the implementation; "
@@ -48,7 +55,8 @@ MANIFEST = dict(
               "independent dimensional-analysis oracle on generated programs",
 )
 
-THEOREMS = ["C02_solver_sound", "C02_whole_input", "C02_whole_input_accepted"]
+THEOREMS = ["C02_solver_sound", "C02_accept_sound", "C02_accept_sound_annotated", "C02_canonical_form",
+            "C02_whole_input", "C02_whole_input_accepted"]
 ALLOWED_AXIOMS = []
 IMPORTS = ["Dim.Model", "Dim.Infer", "Dim.Exec", "Gen.PreludeDims"]
 VO = ["theories/Props/C02.vo", "theories/Dim/Exec.vo", "theories/Gen/PreludeDims.vo"]
@@ -255,6 +263,12 @@ def check_expectations(cases):
             continue
         an = D.analyse(c["inputs"])
         for i, e in enumerate(c.get("expect", [])):
+            if e == "reject" and an[i]["verdict"] == "accept" and D.has_zero_exponent(c["inputs"][i]):
+                # the perturbed operand sits under a zero exponent: the analysis decides (also for the
+                # follow-up inputs of the session, whose expectation assumed a rejected first input)
+                for j in range(i, len(c["expect"])):
+                    c["expect"][j] = None
+                break
             if e is not None and an[i]["verdict"] != e:
                 raise common.Broken("generator expects %s, analysis says %s (%s) for:\n%s" % (
                     e, an[i]["verdict"], an[i]["why"], src_text(c["inputs"])))
@@ -340,6 +354,48 @@ def soup_check(chk, binary, soups):
 
 
 # ------------------------------------------------------------------ the check
+def struct_stream(chk, binary, n):
+    """struct definitions, instantiation, field access, generic structs, lists of structs: expected
+    verdict and dimensions by construction (dimlib.struct_templates)"""
+    ts = []
+    for k in range(n):
+        ts += D.struct_templates(chk.rng, k)
+    lines = [t["source"].replace("\n", "\x1f") for t in ts]
+    out = common.run_harness(binary, "dim", lines, timeout=600)
+    bad = 0
+    stats = collections.Counter()
+    for t, o in zip(ts, out):
+        tc = (o or "").split("\t")[0]
+        extra = (o or "\t").split("\t")[1] if o and "\t" in o else ""
+        why = None
+        if t["expect"] == "accept":
+            if not tc.startswith("ok|"):
+                why = "a dimensionally consistent input is rejected"
+            else:
+                got = {}
+                for st in tc[3:].split("#"):
+                    p = st.split("|")
+                    if p[0] == "let":
+                        got[p[1]] = p[2]
+                for name, want in t["lets"].items():
+                    if got.get(name) != "Q0[]:" + want:
+                        why = "inferred type of %s is %s, dimensional analysis gives %s" % (name, got.get(name), want)
+        else:
+            if not tc.startswith("err|"):
+                why = "an input that equates different dimensions is not rejected with a type error"
+            elif "prints=0" not in extra or "defs=same" not in extra:
+                why = "a rejected input printed or defined something"
+        stats[t["expect"] + ("" if why is None else " FAILED")] += 1
+        if why and bad < 2:
+            chk.violation({"kind": why, "inputs": t["source"], "expected": t["expect"], "observed": tc,
+                           "family": "struct template",
+                           "replay": "printf '<input, lines joined by \\x1f>' | harness/target/debug/nbverif dim"})
+        if why:
+            bad += 1
+    chk.cov["struct_templates"] = dict(stats)
+    return bad
+
+
 def run(chk):
     T = {}
     t0 = time.time()
@@ -436,6 +492,9 @@ def run(chk):
                     n, cases[n]["kind"], cases[n].get("why"), src_text(cases[n]["inputs"]), bad[n],
                     impl[n].split("\t")[0]))
 
+    # ---- structs (outside the model and the tuple AST): by-construction templates on the implementation
+    struct_fail = struct_stream(chk, binary, 30 if chk.tier == "quick" else 400)
+
     # ---- decision
     t0 = time.time()
     found = report_failures(chk, binary, cases, impl, failures, known)
@@ -518,7 +577,7 @@ def run(chk):
         "model_compared_cases": len(items),
         "model_unsupported": len(unsupported),
         "model_mismatches": len(bad),
-        "oracle_failures": len(failures) + soup_bad,
+        "oracle_failures": len(failures) + soup_bad + struct_fail,
         "phase_wall_s": T,
         "samples": [sample(n) for n in picks],
     })
